@@ -4,6 +4,8 @@ import json, os, subprocess
 HERE = os.path.dirname(os.path.dirname(os.path.abspath(__file__)))
 PIP = "/venv/bin/pip install -q --no-index --find-links /opt/veriftools/wheels"
 CHECKS = {
+ "C02": ("model-based mutation histories (Hypothesis-drawn, simulated on a text-level reference model) with closure/symmetry/registry invariants evaluated after every step",
+         "6-C02", "Generated histories of add/rm/disconnect/rename over all record types; after every step structural invariants of the object graph (closure, reference/back-reference symmetry with multiplicities, no ghost, ownership, registry) and model-derived back-reference collections are checked. Exploration."),
  "C01": ("round-trip + fixed-point oracle against an independent GFA grammar/canonicaliser over generated documents (Hypothesis)",
          "6-C01", "Generated valid GFA1/GFA2 documents (all record types, all 7 tag datatypes) x vlevel 0-3 x entry points; written records compared as a multiset of canonical values computed by an independent parser, plus literal write fixed point. Exploration: absence of violations on the cases generated, not a proof."),
 }
